@@ -1,19 +1,92 @@
 //! Registry of all simulated checks (property -> scenario families).
 
 pub mod c01;
+pub mod c02;
 pub mod c08;
 pub mod c12;
+pub mod c13;
 
-use vcommon::{Check, EvidenceExtras};
+use vcommon::{Check, Chooser, EvidenceExtras, RunOutcome, Tier};
+
+/// Run another property's scenario family for the sake of the always-on monitors: the runs
+/// count (and are reported) under `property`, only violations of `property` are reported there.
+pub struct Reuse {
+    pub property: &'static str,
+    pub family: &'static str,
+    pub inner: Box<dyn Check>,
+    pub quick_runs: u64,
+    pub thorough_runs: u64,
+}
+
+impl Check for Reuse {
+    fn property(&self) -> &'static str {
+        self.property
+    }
+    fn family(&self) -> &'static str {
+        self.family
+    }
+    fn budget(&self, tier: Tier) -> u64 {
+        match tier {
+            Tier::Quick => self.quick_runs,
+            Tier::Thorough => self.thorough_runs,
+        }
+    }
+    fn run(&self, ch: &mut Chooser, tier: Tier) -> RunOutcome {
+        self.inner.run(ch, tier)
+    }
+}
+
+fn c01_exact() -> c01::C01 {
+    c01::C01 { family: "c01_net_exact_timers", skew: false, noisy: false, quick_runs: 3000, thorough_runs: 60000 }
+}
+fn c01_noisy() -> c01::C01 {
+    c01::C01 { family: "c01_net_noisy_prelude", skew: true, noisy: true, quick_runs: 1000, thorough_runs: 40000 }
+}
+fn c02_free() -> c02::C02 {
+    c02::C02 { family: "c02_closed_loop_fault_free", faults: false, quick_runs: 3000, thorough_runs: 100_000 }
+}
+fn c02_faults() -> c02::C02 {
+    c02::C02 { family: "c02_closed_loop_faults_then_quiet", faults: true, quick_runs: 1000, thorough_runs: 50_000 }
+}
 
 pub fn all() -> Vec<Box<dyn Check>> {
     let mut v: Vec<Box<dyn Check>> = Vec::new();
     v.push(Box::new(c01::C01 { family: "c01_net_exact_timers", skew: false, noisy: false, quick_runs: 3000, thorough_runs: 60000 }));
     v.push(Box::new(c01::C01 { family: "c01_net_skewed_timers", skew: true, noisy: false, quick_runs: 2000, thorough_runs: 40000 }));
     v.push(Box::new(c01::C01 { family: "c01_net_noisy_prelude", skew: true, noisy: true, quick_runs: 1000, thorough_runs: 40000 }));
+    v.push(Box::new(c02::C02 { family: "c02_closed_loop_fault_free", faults: false, quick_runs: 3000, thorough_runs: 100_000 }));
+    v.push(Box::new(c02::C02 { family: "c02_closed_loop_faults_then_quiet", faults: true, quick_runs: 1000, thorough_runs: 50_000 }));
     v.push(Box::new(c08::C08Driver));
     v.push(Box::new(c12::C12));
+    v.push(Box::new(c13::C13Direct));
+    v.push(Box::new(Reuse { property: "C13", family: "c13_monitor_on_closed_loop_faults", inner: Box::new(c02_faults()), quick_runs: 800, thorough_runs: 30_000 }));
+    v.push(Box::new(Reuse { property: "C13", family: "c13_monitor_on_random_history", inner: Box::new(c08::C08Driver), quick_runs: 3000, thorough_runs: 60_000 }));
+    v.push(Box::new(Reuse { property: "C13", family: "c13_monitor_on_noisy_networks", inner: Box::new(c01_noisy()), quick_runs: 600, thorough_runs: 20_000 }));
+    v.push(Box::new(Reuse { property: "C08", family: "c08_monitor_on_networks", inner: Box::new(c01_noisy()), quick_runs: 800, thorough_runs: 30_000 }));
+    v.push(Box::new(Reuse { property: "C08", family: "c08_monitor_on_faithful_history", inner: Box::new(c12::C12), quick_runs: 2000, thorough_runs: 40_000 }));
+    v.push(Box::new(Reuse { property: "C12", family: "c12_timer_cover_on_networks", inner: Box::new(C12Net(c01_exact())), quick_runs: 1000, thorough_runs: 30_000 }));
+    let _ = c02_free;
     v
+}
+
+/// C01 networks with the timer-cover monitor switched on (faithful host throughout)
+pub struct C12Net(pub c01::C01);
+impl Check for C12Net {
+    fn property(&self) -> &'static str {
+        "C12"
+    }
+    fn family(&self) -> &'static str {
+        "c12_timer_cover_on_networks_inner"
+    }
+    fn budget(&self, tier: Tier) -> u64 {
+        self.0.budget(tier)
+    }
+    fn run(&self, ch: &mut Chooser, tier: Tier) -> RunOutcome {
+        crate::host::TIMER_COVER_DEFAULT.with(|c| c.set(true));
+        let o = self.0.run(ch, tier);
+        crate::host::TIMER_COVER_DEFAULT.with(|c| c.set(false));
+        o
+    }
 }
 
 const REAL: &[&str] = &[
@@ -38,6 +111,19 @@ pub fn extras(property: &str) -> EvidenceExtras {
     match property {
         "C01" => {
             e.rule = "each run = one generated network (2-6/8 nodes, ordinary + boundary clocks, shared segments, optional rings and two-ports-on-one-segment, slave-only and clockClass<128 nodes) simulated through convergence, a hold window, one fault script (cut/heal, silence/unsilence, restart, quality change) and a second hold window; non-trivial = converged window evaluated and fault script applied (or no applicable fault); distinct = distinct event-shape fingerprint (hash of the sequence of event kinds, state transitions and oracle phases)".into();
+        }
+        "C02" => {
+            e.rule = "each run = one closed loop (statime master or scripted one-step master <-> statime slave with the real Kalman servo acting on a simulated oscillator) at one point of the parameter box (offset +-10 s, drift +-150 ppm, delay 1-400 us, jitter 0-20 us, sync/delay interval 2^-3..2^1 s, timestamp quantum 0/1/8 ns); non-trivial = the port became slave and the bound was evaluated after the settle time; distinct = distinct (parameter class, state-transition sequence) fingerprint".into();
+            e.assumptions.push("bound B = max(1 us, 1.5 J + 2 q); settle time 60 s + 150 I + 250 I^2/s calibrated on the unchanged tree with a margin >= 2x and frozen".into());
+        }
+        "C08" => {
+            e.rule = "each run = one generated history over the host-call alphabet (timers armed or not, BMCA, Announces from better/worse/own/unacceptable masters, Sync/Follow_Up/Delay_Resp/Pdelay traffic, TX timestamps prompt/late/lost, run-time slave-only and quality changes) on an instance with 1-3 ports in random master-only/slave-only/E2E/P2P configuration, or one generated network; role invariants are evaluated after every host call; non-trivial = at least one port state transition; distinct = distinct state-transition sequence fingerprint".into();
+        }
+        "C12" => {
+            e.rule = "each run = a generated history with a faithful host (timers armed and fired exactly as requested; lost/late TX timestamps, masters appearing/disappearing, second peer-delay responders) followed by (a) total silence or (b) a steadily announcing better master; non-trivial = phase 2 evaluated; distinct = (variant, start states, transition sequence) fingerprint".into();
+        }
+        "C13" => {
+            e.rule = "adversarial measurement histories (offsets 0..+-1e9 s, equal/backward/future event times, identical entries, alternating sync/delay/peer-delay kinds, interleaved update()) on KalmanFilter and BasicFilter with random positive configurations and a clock failing commands intermittently, plus the command monitor on closed-loop, random-history and network scenarios; non-trivial = at least one clock command issued; distinct = distinct command-sequence / transition fingerprint".into();
         }
         _ => {}
     }
